@@ -7,7 +7,7 @@
   `Props/C06_overlap_memo.lean: overlap_memo_terminates` proves sufficient on every document.
   (`overlapMemoRun` is the rule ALONE - all selection sets; the theorems of Props/C06_overlap_memo.lean are about it.
   In a chain, a rule raising `SkipNode` above a selection set hides it from every member: the driver therefore runs the
-  memoised search inside the chain itself, `runM` of `Validate/ChainG.lean`.)
+  memoised search inside the chain itself, `runM` of `Validate/ChainPar.lean`.)
   `runMemo`: the chain as modelled (`run`, UN-memoised search - the one the theorems are about); where that one
   exhausts its fuel (fragment cycles below fields: the code before the memo recursed forever), the other rules' errors
   come from the chain without the overlap rule and the overlap rule's from the memoised run; on UNRANKED documents
@@ -17,7 +17,7 @@
   not crash" on every document (standing in for the verdict-neutrality theorem, which is open).
 -/
 import PyGqlModel.Validate.Chain
-import PyGqlModel.Validate.ChainG
+import PyGqlModel.Validate.ChainPar
 import PyGqlModel.Validate.OverlapMemo
 import PyGqlModel.Validate.OverlapRank
 import PyGqlModel.Validate.WfIds
@@ -66,7 +66,7 @@ private def crashOf : Outcome → Option String
   | .crash e => some e
   | .errors _ => none
 
-/-- The answer of the driver. `om` = the chain run with the memoised search INSIDE it (`runM`, `Validate/ChainG.lean`:
+/-- The answer of the driver. `om` = the chain run with the memoised search INSIDE it (`runM`, `Validate/ChainPar.lean`:
     same traversal and `SkipNode` handling as the chain of the theorems, so the overlap rule sees exactly the
     selection sets it sees there - a rule raising `SkipNode` above a selection set hides it from all members).
     Ranked documents: the chain of the theorems `run` gives the verdict (if it crashes: `om`), and the two overlap
